@@ -33,6 +33,9 @@ const MANT_LIMIT: i64 = 1 << 30;
 
 thread_local! {
     static REAL: Cell<bool> = Cell::new(false);
+    // depth of guarded regions: a panic of the code under test inside one is DATA (recorded in the event);
+    // a panic outside is a bug of the executor itself and is printed
+    static GUARD: Cell<u32> = Cell::new(0);
 }
 fn real() -> bool {
     REAL.with(|r| r.get())
@@ -297,7 +300,11 @@ fn observe(a: &Array, h: i64, with_grads: bool) -> Value {
 }
 
 fn main() {
-    panic::set_hook(Box::new(|_| {}));
+    panic::set_hook(Box::new(|info| {
+        if GUARD.with(|g| g.get()) == 0 {
+            eprintln!("executor panic outside a guarded call: {}", info);
+        }
+    }));
     let argv: Vec<String> = std::env::args().collect();
     if argv.iter().any(|a| a == "--real") {
         REAL.with(|r| r.set(true));
@@ -353,15 +360,18 @@ fn run_step(st: &mut State, step: &Value) -> Value {
     let mut newh: Option<Array> = None;
 
     macro_rules! guarded {
-        ($body:expr) => {
-            match panic::catch_unwind(AssertUnwindSafe(|| $body)) {
+        ($body:expr) => {{
+            GUARD.with(|g| g.set(g.get() + 1));
+            let r = panic::catch_unwind(AssertUnwindSafe(|| $body));
+            GUARD.with(|g| g.set(g.get() - 1));
+            match r {
                 Ok(v) => Some(v),
                 Err(_) => {
                     panicked = true;
                     None
                 }
             }
-        };
+        }};
     }
 
     let opx = if execute { op.as_str() } else { "nop" };
@@ -485,6 +495,17 @@ fn run_step(st: &mut State, step: &Value) -> Value {
         }
         "drop" => {
             st.hs.remove(&args[0]);
+        }
+        "start" | "stop" if !st.hs.contains_key(&args[0]) => {
+            // a layer parameter (pseudo handle): the flag of the array owned by the layer itself
+            for slot in st.layers.values() {
+                if let Some(k) = slot.ph.iter().position(|p| *p == args[0]) {
+                    let mut b = slot.inner.borrow_mut();
+                    let ps = b.parameters();
+                    let r = if op == "start" { ps[k].start_tracking() } else { ps[k].stop_tracking() };
+                    ev.insert("ret".into(), json!(r));
+                }
+            }
         }
         "start" => {
             ev.insert("ret".into(), json!(st.hs[&args[0]].start_tracking()));
@@ -633,23 +654,35 @@ fn run_step(st: &mut State, step: &Value) -> Value {
         _ => panic!("executor: unknown op {}", op),
     }
 
-    ev.insert("panic".into(), json!(panicked));
+    let step_panicked = panicked;
+    ev.insert("panic".into(), json!(step_panicked));
     if let Some(a) = newh {
         ev.insert("new".into(), tensor_out(&a));
         st.hs.insert(res.expect("res handle"), a);
     }
-    // observation of every live handle (user handles and layer parameters)
+    // observation of every live handle (user handles and layer parameters); the accessors used for it belong to
+    // the code under test, so a panic in them is recorded, not fatal
     let mut live = vec![];
+    let mut obs_panic = false;
     for (h, a) in st.hs.iter() {
-        live.push(observe(a, *h, with_grads));
+        match guarded!(observe(a, *h, with_grads)) {
+            Some(o) => live.push(o),
+            None => obs_panic = true,
+        }
     }
     for slot in st.layers.values() {
         let mut b = slot.inner.borrow_mut();
         for (p, h) in b.parameters().iter().zip(&slot.ph) {
-            live.push(if op == "m_update" { observe_val(p, *h, with_grads) } else { observe(p, *h, with_grads) });
+            match guarded!(if op == "m_update" { observe_val(p, *h, with_grads) } else { observe(p, *h, with_grads) }) {
+                Some(o) => live.push(o),
+                None => obs_panic = true,
+            }
         }
     }
     live.sort_by_key(|o| o["h"].as_i64().unwrap());
     ev.insert("live".into(), Value::Array(live));
+    if obs_panic {
+        ev.insert("obs_panic".into(), json!(true));
+    }
     Value::Object(ev)
 }
